@@ -18,7 +18,9 @@ package main
 import (
 	"encoding/json"
 	"fmt"
+	"net"
 	"net/netip"
+	"os"
 	"runtime/debug"
 	"sort"
 	"strconv"
@@ -888,6 +890,46 @@ func main() {
 		distinct += nG1 - overlapG + int64(len(g2))
 	}
 
+	// ---- family H: names of things the host knows. An address text is judged by its characters
+	// alone: the names of the network interfaces of the machine the check runs on (read with
+	// net.Interfaces), common interface names, host names and service names, bare, with port suffixes
+	// and bracketed, contain no dotted quad and are rejected.
+	{
+		names := map[string]struct{}{}
+		if ifs, err := net.Interfaces(); err == nil {
+			for _, i := range ifs {
+				names[i.Name] = struct{}{}
+			}
+		}
+		if h, err := os.Hostname(); err == nil && h != "" {
+			names[h] = struct{}{}
+		}
+		for _, n := range []string{"lo", "lo0", "eth0", "eth1", "en0", "wlan0", "docker0", "br0", "localhost", "broadcasthost", "ip6-localhost", "any", "all", "default", "broadcast", "udp", "tcp", "http"} {
+			names[n] = struct{}{}
+		}
+		list := []string{}
+		for n := range names {
+			if c := spec.ClassifyAddr(spec.AddrBind, n); c.Verdict != spec.AddrMustReject {
+				continue // (a host named like a dotted quad: not this family's business)
+			}
+			for _, form := range []string{"%s", "[%s]", "%s%%1"} {
+				base := fmt.Sprintf(form, n)
+				list = append(list, base)
+				for _, port := range []string{":0", ":1", ":60000", ":60001", ":65535"} {
+					list = append(list, base+port)
+				}
+			}
+		}
+		sort.Strings(list)
+		var t tally
+		for _, s := range list {
+			checkAll(s, &t)
+		}
+		t.flush()
+		r.Set("familyH_host_known_names", int64(len(list)))
+		distinct += int64(len(list))
+	}
+
 	// ---- family D: Set / UnmarshalJSON on a receiver that already holds a value. The verdict and the
 	// resulting value must be those of the text alone, whatever the receiver held before (including
 	// a value the role's port rule forbids, which only the XxxAddrFrom constructors can produce, and
@@ -1118,6 +1160,7 @@ func main() {
 		"(B) a.b.c.d+suffix with [B1] two octet positions over {0,1,9,10,99,100,199,255,256,999,00,01} (others fixed to 12.34.56.78) and [B3] each position over 0..255, each x %d port suffixes (none, boundary ports, 65536, 99999, leading zeros, signs, blanks, empty); "+
 		"[B2] all 65536 plain-decimal ports x %s address texts; [B4] %s; "+
 		"(G) every string of length 0..10 over {':','f','0'} (thorough: plus '1') and the hexadecimal IPv4-mapped / -compatible / NAT64 / 6to4 IPv6 spellings of 8 IPv4 addresses (13 spellings x bare / bracketed / zoned x 7 port suffixes): no dotted quad, must be rejected. "+
+		"(H) the names of the host's network interfaces, its host name and 18 common interface / host / service names x 3 forms x 6 port suffixes: rejected. "+
 		"(C) every string within edit distance %d (insert/delete/substitute over a 12-symbol alphabet incl. '[',']','%%','x',' ') of 6 valid addresses. "+
 		"Each input x 4 roles x {Parse, Set, UnmarshalJSON, MustParse}; String()->Parse and MarshalJSON->UnmarshalJSON for every accepted in-form input. (D) Set and UnmarshalJSON on receivers already holding each of 3 addresses x 6 ports (built with XxxAddrFrom, rule-violating ports included) x 29 texts incl. the receiver's own String(). (F) 15 texts in 6 JSON spellings (\\uXXXX escapes, surrounding white space) through encoding/json. (E) every ordered pair of 23 texts parsed one directly after the other through Parse, Set and UnmarshalJSON (JSON from one reused buffer). "+
 		"A case is a (role, input string) pair; distinct = distinct non-empty input strings x 4 roles, counted conservatively "+
